@@ -42,8 +42,11 @@ CONSTANTS Types,    \* device types (strings, subset of {"gpu", "rdma", "fpga"})
           Minors,   \* device minors (integers)
           Pods      \* pod names
 
-VARIABLES total, api, resv, exempt
-vars == <<total, api, resv, exempt>>
+VARIABLES total, api, resv, exempt,
+          lost    \* assigned pods whose ledger entry a LATE Unreserve removed (the bind was persisted and the informer had
+                  \* delivered the bound pod, but the bind call reported an error to the scheduler, which rolled back):
+                  \* the node's ledgers do not count them until the informer delivers the pod again (named deviation)
+vars == <<total, api, resv, exempt, lost>>
 
 \* resources a device of type t exposes ("mem" is derived from "ratio" by the plugin when a GPU is granted)
 ResOf(t) == CASE t = "gpu"  -> {"core", "ratio", "mem"}
@@ -61,7 +64,7 @@ Norm(t, res) == [r \in ResOf(t) |-> IF r \in DOMAIN res THEN res[r] ELSE 0]
 (************************* derived: who holds what **************************)
 \* the device allocation of pod p that the node's ledgers must account for
 Holds(p) == IF api[p].exists /\ api[p].node
-              THEN (IF api[p].term THEN {} ELSE api[p].alloc)   \* assigned: the annotation of a running pod counts
+              THEN (IF api[p].term \/ p \in lost THEN {} ELSE api[p].alloc)   \* assigned: the annotation of a running pod counts
               ELSE resv[p]                                      \* not (yet) assigned: what Reserve assumed
 AllocSet == [p \in Pods |-> Holds(p)]
 
@@ -70,6 +73,11 @@ Used(t, m, r)   == FoldSet(LAMBDA x, acc : acc + x[2].res[r], 0, EntriesAt(t, m)
 Free(t, m, r)   == Max0(total[t][m][r] - Used(t, m, r))
 Over(t, m)      == \E r \in ResOf(t) : Used(t, m, r) > total[t][m][r]
 OverSet         == {d \in Devs : Over(d[1], d[2])}
+\* the same with the pods a late roll-back dropped counted too (they come back with their next informer event)
+HoldsAll(p)       == IF api[p].exists /\ api[p].node THEN (IF api[p].term THEN {} ELSE api[p].alloc) ELSE resv[p]
+EntriesAtAll(t, m) == UNION {{<<p, e>> : e \in {x \in HoldsAll(p) : x.t = t /\ x.m = m}} : p \in Pods}
+UsedAll(t, m, r)  == FoldSet(LAMBDA x, acc : acc + x[2].res[r], 0, EntriesAtAll(t, m))
+OverSetAll        == {d \in Devs : \E r \in ResOf(d[1]) : UsedAll(d[1], d[2], r) > total[d[1]][d[2]][r]}
 
 (****************************** invariants **********************************)
 \* (U) no device is over-committed unless the environment did it
@@ -113,18 +121,20 @@ EntriesOf(result) ==
 (******************************** actions ***********************************)
 \* steps of the scheduler / of pods going away cannot excuse an over-commit; steps by which the environment
 \* dictates totals or allocations can
-KeepExempt == exempt' = exempt \cap OverSet'
-EnvExempt  == exempt' = OverSet'
+\* devices held by pods a late roll-back dropped: granting them again is the roll-back's doing, not the allocator's
+LostDevs   == {d \in Devs : \E p \in lost : \E e \in HoldsAll(p) : e.t = d[1] /\ e.m = d[2]}
+KeepExempt == exempt' = exempt \cap (OverSetAll' \cup LostDevs')
+EnvExempt  == exempt' = OverSetAll' \cup (exempt \cap LostDevs')
 
 \* device inventory refresh (Device object added / updated); inv has the shape of total
-Inventory(inv) == total' = inv /\ UNCHANGED <<api, resv>> /\ EnvExempt
+Inventory(inv) == total' = inv /\ UNCHANGED <<api, resv, lost>> /\ EnvExempt
 \* the Device object is deleted: every device counts as unhealthy until it is reported again
 Invalidate == Inventory(NoDevices)
 
 \* an unassigned pod appears
 Create(p) == /\ ~api[p].exists
              /\ api' = [api EXCEPT ![p] = [NoPod EXCEPT !.exists = TRUE]]
-             /\ UNCHANGED <<total, resv>> /\ KeepExempt
+             /\ UNCHANGED <<total, resv, lost>> /\ KeepExempt
 
 \* one scheduling attempt for p on this node: allocate and - on success, if the node is chosen - Reserve.
 \* The outcome (ok, result) is whatever the allocator returned; the property says which outcomes are allowed.
@@ -133,53 +143,62 @@ Alloc(p, reqs, required, ok, result, commit) ==
     /\ AllocOutcomeOK(reqs, required, ok, result)
     /\ api' = [api EXCEPT ![p].exists = TRUE]
     /\ resv' = IF ok /\ commit THEN [resv EXCEPT ![p] = EntriesOf(result)] ELSE resv
-    /\ UNCHANGED total /\ KeepExempt
+    /\ UNCHANGED <<total, lost>> /\ KeepExempt
 
 Unreserve(p) == /\ ~api[p].node /\ resv[p] # {}
                 /\ resv' = [resv EXCEPT ![p] = {}]
-                /\ UNCHANGED <<total, api>> /\ KeepExempt
+                /\ UNCHANGED <<total, api, lost>> /\ KeepExempt
+
+\* the scheduler rolls back a pod whose bind WAS persisted and already delivered by the informer (the bind call returned an
+\* error): Unreserve subtracts the allocation it reserved and drops the pod from the node's ledgers although the pod
+\* object is assigned; the next informer event for the pod puts it back
+LateUnreserve(p) == /\ api[p].exists /\ api[p].node /\ ~api[p].term /\ api[p].alloc # {} /\ p \notin lost
+                    /\ lost' = lost \cup {p}
+                    /\ UNCHANGED <<total, api, resv>>
+                    /\ exempt' = exempt \cup {d \in Devs : \E e \in api[p].alloc : e.t = d[1] /\ e.m = d[2]}
 
 \* the pod is bound with the allocation written to its annotation; the informer delivers the update
 Bind(p) == /\ api[p].exists /\ ~api[p].node /\ resv[p] # {}
            /\ api' = [api EXCEPT ![p] = [exists |-> TRUE, node |-> TRUE, term |-> FALSE, alloc |-> resv[p]]]
            /\ resv' = [resv EXCEPT ![p] = {}]
-           /\ UNCHANGED total /\ KeepExempt
+           /\ UNCHANGED <<total, lost>> /\ KeepExempt
 
 \* events that do not change the object: update without change, duplicate add, duplicate delete of a gone pod
-Touch(p)    == api[p].exists /\ UNCHANGED <<total, api, resv>> /\ KeepExempt
+Touch(p)    == api[p].exists /\ UNCHANGED <<total, api, resv>> /\ lost' = lost \ {p} /\ KeepExempt   \* the informer delivered p again
 ReAdd(p)    == Touch(p)
-ReDelete(p) == ~api[p].exists /\ resv[p] = {} /\ UNCHANGED <<total, api, resv>> /\ KeepExempt
+ReDelete(p) == ~api[p].exists /\ resv[p] = {} /\ UNCHANGED <<total, api, resv, lost>> /\ KeepExempt
 
 \* an update that changes the allocation annotation of an assigned running pod (A : set of entries)
 Annotate(p, A) == /\ api[p].exists /\ api[p].node /\ ~api[p].term
                   /\ api' = [api EXCEPT ![p].alloc = A]
-                  /\ UNCHANGED <<total, resv>> /\ EnvExempt
+                  /\ UNCHANGED <<total, resv>> /\ lost' = lost \ {p} /\ EnvExempt
 Terminate(p) == /\ api[p].exists /\ api[p].node /\ ~api[p].term
                 /\ api' = [api EXCEPT ![p].term = TRUE]
-                /\ UNCHANGED <<total, resv>> /\ KeepExempt
+                /\ UNCHANGED <<total, resv>> /\ lost' = lost \ {p} /\ KeepExempt
 \* the pod object becomes unassigned again (multi-scheduler); what an unassigned object carries in its annotation is
 \* irrelevant to the node's ledgers, so the abstraction forgets it
 Unassign(p) == /\ api[p].exists /\ api[p].node
                /\ api' = [api EXCEPT ![p] = [NoPod EXCEPT !.exists = TRUE]]
-               /\ UNCHANGED <<total, resv>> /\ KeepExempt
+               /\ UNCHANGED <<total, resv>> /\ lost' = lost \ {p} /\ KeepExempt
 Delete(p) == /\ api[p].exists
              /\ api' = [api EXCEPT ![p] = NoPod]
-             /\ UNCHANGED <<total, resv>> /\ KeepExempt
+             /\ UNCHANGED <<total, resv>> /\ lost' = lost \ {p} /\ KeepExempt
 \* an already assigned pod appears (fail-over, another scheduler)
 AddAssigned(p, A) == /\ ~api[p].exists /\ resv[p] = {}
                      /\ api' = [api EXCEPT ![p] = [exists |-> TRUE, node |-> TRUE, term |-> FALSE, alloc |-> A]]
-                     /\ UNCHANGED <<total, resv>> /\ EnvExempt
+                     /\ UNCHANGED <<total, resv, lost>> /\ EnvExempt
 
 \* C19: the scheduler restarts.  The inventory (Device object) and the pod objects - with the allocation the binding
 \* cycle persisted in their annotation - survive in the API server; what a scheduling cycle held between Reserve and
 \* bind lived only in the scheduler's memory, nothing was persisted for it, and it is lost with the process (the pod
 \* is still unassigned and will be scheduled again).  Everything else the node's ledgers must account for is the same
 \* before and after: no device share taken by a bound pod is free after the restart.
-Restart == /\ resv' = [p \in Pods |-> {}]
+Restart == /\ resv' = [p \in Pods |-> {}] /\ lost' = {}
            /\ UNCHANGED <<total, api>> /\ KeepExempt
 
 Init == /\ total = NoDevices
         /\ api = [p \in Pods |-> NoPod]
         /\ resv = [p \in Pods |-> {}]
         /\ exempt = {}
+        /\ lost = {}
 =============================================================================
